@@ -78,8 +78,14 @@ func (s *State) Member(t *rapid.T, p Profile) string {
 			return pick(t, "id", p.IDPool)
 		}
 		s.nextID++
-		if rapid.IntRange(0, 3).Draw(t, "idstr") == 0 {
+		switch rapid.IntRange(0, 11).Draw(t, "idstr") {
+		case 0, 1, 2:
 			return fmt.Sprintf(`"s%d"`, s.nextID)
+		case 3:
+			// numbers no int64 holds, and exponent notation: ids all the same
+			return fmt.Sprintf("922337203685477580%d", 800+s.nextID)
+		case 4:
+			return fmt.Sprintf("%de3", 100+s.nextID)
 		}
 		return fmt.Sprint(s.nextID)
 	}
